@@ -47,9 +47,22 @@ func init() {
 			}
 			return x.finish(st, fr, c, VScalar{g.now})
 		})
-	reg("("+gocoroPath+".Coroutine).Get", "c.Get(key): a fixed resource per key",
+	reg("("+gocoroPath+".Coroutine).Get", "c.Get(key): a fixed resource per key; \"config\" is the non-nil *system.Config set by System.AddOnRequest",
 		func(x *Exec, st *State, fr *Frame, c *callCtx) bool {
 			k := x.scalar(st, c.args[1])
+			if k.S == x.sym.StrLit("config").S {
+				// AddOnRequest sets the "config" resource to the system's (non-nil) *system.Config
+				// before the request coroutine runs
+				if ct := x.namedType(repoModule+"/internal/kernel/system", "Config"); ct != nil {
+					pt := types.NewPointer(ct)
+					if x.configVal == nil {
+						v := x.symbolic(st, pt, "config").(VPtr)
+						x.configVal = &v
+					}
+					st.assume(Not(x.configVal.Nil))
+					return x.finish(st, fr, c, VIface{Nil: TFalse, Dyn: pt, Val: *x.configVal, Typ: c.ret.Type()})
+				}
+			}
 			name := "c.Get(" + k.S + ")"
 			return x.finish(st, fr, c, VIface{Nil: x.sym.Named(name+".isnil", SBool), Id: x.sym.Named(name+".id", SErr), Typ: c.ret.Type()})
 		})
